@@ -206,10 +206,14 @@ type scriptConn struct {
 	elapsed  int64
 	closed   bool
 	reads    int
+	maxBuf   int // the largest buffer the client handed to Read
 }
 
 func (c *scriptConn) Read(p []byte) (int, error) {
 	c.reads++
+	if len(p) > c.maxBuf {
+		c.maxBuf = len(p)
+	}
 	if c.reads > 300000 {
 		panic("harness: more than 300000 reads in one session (the call does not return)")
 	}
